@@ -833,3 +833,92 @@ def run_script(steps, conf=CONF, gap=0.5, trace_exc=False):
         }
     finally:
         rig.close()
+
+
+# ------------------------------------------------------------------------------- C12 tie: the loop gap
+
+
+def measure_loop_gap(hold, nroutes=5000, block_s=0.0, block_at=1000):
+    """Longest virtual-time gap between two consecutive consultations of the timers (ReceiveTimer.check_ka and
+    KA.send_if_needed, both called once per iteration of Peer._main) while a batch of `nroutes` UPDATEs (one route
+    each: distinct MED) is being sent; the write number `block_at` of the batch blocks for `block_s` seconds (a
+    peer that stops reading).  The remote speaker sends a KEEPALIVE every hold/3 seconds.
+    -> dict(hold, routes, block_s, updates_written, batch_s, max_gap_check_ka_s, max_gap_send_ka_s, iterations, ended)"""
+    import exabgp.bgp.timer as timermod
+    import exabgp.reactor.keepalive as kamod
+
+    routes = '\n'.join(f'    route 10.{(i >> 8) & 255}.{i & 255}.0/24 next-hop 1.1.1.1 med {i + 1};' for i in range(nroutes))
+    conf = CONF.replace('hold-time 180;', f'hold-time {hold};').replace('route 10.1.0.0/24 next-hop 1.1.1.1;', routes)
+    rig = Rig(conf)
+    calls = {'check_ka': [], 'send_ka': []}
+    state = {'updates': 0, 'first': None, 'last': None}
+
+    real_check = timermod.ReceiveTimer.check_ka  # already wrapped by the rig
+
+    def check_ka(timer, message=None, *a):
+        calls['check_ka'].append(rig.loop.time())
+        return real_check(timer, message, *a)
+
+    timermod.ReceiveTimer.check_ka = check_ka
+    real_send = kamod.KA.send_if_needed
+
+    async def send_if_needed(ka):
+        calls['send_ka'].append(rig.loop.time())
+        return await real_send(ka)
+
+    kamod.KA.send_if_needed = send_if_needed
+    real_sendall = VLoop.sock_sendall
+
+    async def sock_sendall(loop, io, data):
+        if len(data) > 18 and data[18] == 2:
+            state['updates'] += 1
+            if state['first'] is None:
+                state['first'] = loop.time()
+            state['last'] = loop.time()
+            if block_s and state['updates'] == block_at:
+                await asyncio.sleep(block_s)  # the kernel buffer is full: the peer does not read
+        return await real_sendall(loop, io, data)
+
+    VLoop.sock_sendall = sock_sendall
+    rig.record_write = lambda io, raw: None  # 5 000 writes: not logged one by one
+
+    async def main():
+        rig.start()
+        for _ in range(50):
+            if rig.connecting is not None:
+                break
+            await asyncio.sleep(0.1)
+        rig.connect_ok()
+        await asyncio.sleep(0.3)
+        io = rig.cur_io()
+        io.feed(open_bytes(hold=hold), 'Recv', 'OpenOk')
+        await asyncio.sleep(0.3)
+        io.feed(msg(4), 'Recv', 'Keepalive')
+        t_end = rig.loop.time() + nroutes / 25 * 0.11 + block_s + 5
+        while rig.loop.time() < t_end and not io.closed:
+            await asyncio.sleep(max(hold / 3.0, 0.5))
+            if not io.closed:
+                io.feed(msg(4), 'Recv', 'Keepalive')
+
+    try:
+        rig.loop.run_until_complete(main())
+    finally:
+        timermod.ReceiveTimer.check_ka = real_check
+        kamod.KA.send_if_needed = real_send
+        VLoop.sock_sendall = real_sendall
+        ended = [e for e in rig.log if e[0] == 'fsm' and e[1] == ESTABLISHED]
+        rig.close()
+
+    def max_gap(ts):
+        lo, hi = state['first'], state['last']
+        if lo is None:
+            return None
+        inside = [t for t in ts if lo - 0.2 <= t <= hi + 0.2]
+        return round(max((b - a for a, b in zip(inside, inside[1:])), default=0.0), 4)
+
+    return {
+        'hold': hold, 'routes': nroutes, 'block_s': block_s, 'updates_written': state['updates'],
+        'batch_s': None if state['first'] is None else round(state['last'] - state['first'], 2),
+        'max_gap_check_ka_s': max_gap(calls['check_ka']), 'max_gap_send_ka_s': max_gap(calls['send_ka']),
+        'iterations': len(calls['check_ka']), 'session_ended_during_batch': bool(ended),
+    }
